@@ -282,7 +282,10 @@ def handshake_cases(tier, rng):
             forms.append(("TXT", "16 %s" % hx(bytes([len(pl) + 2]) + b"aa" + pl)))
             forms.append(("PRIVATE", "65000 %s" % hx(struct.pack("<H", 1) + pl)))
         for name, f in forms:
-            for k in (ks if tier == "thorough" else [0] + [rng.choice(ks) for _ in range(3)]):
+            # (an error response without a readable reason meets every exchange of the handshake in the quick tier too: a nil error
+            # with an answer of another type is what callers cannot cope with)
+            every = tier == "thorough" or (name == "NULL" and pl in (b"e" + b32(b"\x00"), b"e" + b32(b"")))
+            for k in (ks if every else [0] + [rng.choice(ks) for _ in range(3)]):
                 cs.append({"line": "c12h %d %s" % (k, f), "key": ("h", name, pl[:4].hex(), k), "model": False, "tags": {"side": "client-handshake", "n": 1, "types": name}})
     for k in ks:
         cs.append({"line": "c12h %d" % k, "key": ("h", "none", k), "model": False, "tags": {"side": "client-handshake", "n": 0, "types": ""}})
